@@ -294,6 +294,15 @@ def evaluate(ctx, cases, tag):
             pos += 1
         ctx.count(tag + "_cells", orc.n_cells)
         ctx.count(tag + "_numbers_checked", orc.n_nonblank)
+        if orc.n_nonblank > 0:
+            # distinct reports (by text) that show at least one number
+            seen = ctx.__dict__.setdefault("_c13_seen", set())
+            h = hash(getattr(c, "text", None) or repr(getattr(c, "spec", id(c))))
+            if h not in seen:
+                seen.add(h)
+                ctx.count("reports_with_numbers_distinct")
+            if len(ctx.cov["samples"]) < 2 and getattr(c, "text", None):
+                ctx.sample({"level": tag, "report_excerpt": "\n".join(c.text.split("\n")[:14])[:1200], "numbers_checked": orc.n_nonblank})
         if orc.failures:
             nfail += 1
             what, detail = orc.failures[0]
@@ -487,11 +496,12 @@ def run(ctx):
     # ---- coverage
     ev = ctx.counts.get("L1_cases", 0) + ctx.counts.get("L2_cases", 0)
     ctx.cov["evaluations"] = ev
-    ctx.cov["distinct_nontrivial"] = ctx.counts.get("L1_numbers_checked", 0) + ctx.counts.get("L2_numbers_checked", 0)
+    ctx.cov["distinct_nontrivial"] = ctx.counts.get("reports_with_numbers_distinct", 0)
+    ctx.cov["numbers_checked"] = ctx.counts.get("L1_numbers_checked", 0) + ctx.counts.get("L2_numbers_checked", 0)
     ctx.cov["traces_validated_against_impl"] = ev
     ctx.cov["rule"] = ("evaluations = reports generated by the real code and compared (text byte for byte with the model, "
-                       "reading of the text with the machine-readable output); non-trivial = non-blank numbers of those "
-                       "reports checked against the machine-readable value at the shown precision")
+                       "reading of the text with the machine-readable output); non-trivial = distinct reports showing at "
+                       "least one number; numbers_checked = non-blank numbers compared with the machine-readable value at the shown precision")
     ctx.cov["distribution"].update({
         "level1": "synthetic analyses: 1-20 ports drawn from shipped and odd names, 1-30 lines, pressures incl. >=10, >=100, "
                   ">=1000, rounding ties, negatives; CP/LCD latencies int and float; 0-6 LCD entries incl. equal maxima; "
